@@ -196,6 +196,21 @@ def run(ctx):  # noqa: C901
         ctx.ob("R-SDP", fs, "value == 2 * optimum - 1", okr, "2 * solution.value - 1" if okr else "returned value changed")
         oks = any(any(kw.arg == "solver" and unparse(kw.value) == "solver_option" for kw in c.keywords) for c in sk.solves)
         ctx.ob("R-THREAD", fs, "solver_option->solve(solver=)", oks, "used" if oks else "ignored")
+    # the state arrives ordered (B, A, R) with dims psi_dims; it is permuted to (R, A, B) with THOSE dims -- the dims list is
+    # reversed only afterwards (value of `psi_dims` at the call must still be the caller's list)
+    from ..rules import value_at
+    Nfs = Normalizer(m, fs, inline=False)
+    for c_, cal_ in calls_from(m, fs, "permute_systems.permute_systems"):
+        b_ = m.bind(c_, cal_.func)
+        if isinstance(b_.get("input_mat"), ast.Name) and b_["input_mat"].id == "psi":
+            dt_ = Nfs(b_["dim"]) if isinstance(b_.get("dim"), ast.AST) else None
+            dv_ = value_at(m, fs, dt_[1], c_, Nfs) if dt_ is not None and dt_[0] == "n" else dt_
+            okd_ = dv_ == ("n", "psi_dims")
+            okp_ = Nfs(b_["perm"]) == ("list", ("c", 2), ("c", 1), ("c", 0)) if isinstance(b_.get("perm"), ast.AST) else False
+            ctx.ob("R-ORDER", fs, "psi is permuted (B,A,R) -> (R,A,B) with the caller's dims, before the dims list is reversed", None if dv_ is None else bool(okd_ and okp_),
+                   "permute_systems(psi, [2, 1, 0], psi_dims) on the unreversed dims" if okd_ and okp_ else
+                   f"at the call the dims are {show(dv_)[:70] if dv_ else '?'} and the permutation {unparse(b_['perm']) if isinstance(b_.get('perm'), ast.AST) else '?'}: the subsystem sizes handed to "
+                   "permute_systems do not describe the state's current ordering (only harmless when dim_B == dim_R)", c_, required=dv_ is not None)
     okk = False
     for c_, cal_ in calls_from(m, fs, "symmetric_projection.symmetric_projection"):
         b_ = m.bind(c_, cal_.func)
